@@ -48,9 +48,11 @@ Scenarios == {[nodes |-> Layout(lay), wls |-> WlSet(ws), op |-> o, mode |-> m, e
 Valid(s) == /\ \A i \in 1..Len(s.op.targets) : s.op.targets[i] < Len(s.wls)
             /\ (s.op.kind \in {"remove", "dissociate", "realloc", "replace", "control", "copy", "execute"} => Len(s.wls) > 0)
             /\ (s.mode = "crash" => s.op.kind = "create")
-            /\ (s.op.kind = "lambda" <=> s.mode \in {"once", "burst"})
-            \* "burst": the instances of one run-and-wait request finish their creation at the same moment (several rounds)
-            /\ (s.mode = "burst" => s.op.count >= 2 /\ s.op.delta = "ok" /\ ~s.op.stdin /\ s.op.req = "u")
+            /\ (s.op.kind = "lambda" => s.mode \in {"once", "burst"}) /\ (s.mode = "once" => s.op.kind = "lambda")
+            \* "burst": the instances of one run-and-wait request / deployment finish their creation at the same moment (several rounds)
+            /\ (s.mode = "burst" => /\ s.op.kind \in {"lambda", "create"} /\ s.op.count >= 2
+                                     /\ (s.op.kind = "lambda" => s.op.delta = "ok" /\ ~s.op.stdin /\ s.op.req = "u")
+                                     /\ (s.op.kind = "create" => s.op.strategy = "AUTO" /\ s.op.nodes = <<>>))
             /\ (s.op.count = 4 => s.mode = "burst")
             /\ (s.op.kind = "lambda" => (s.op.stdin => s.op.count = 1) /\ (s.op.delta = "attacherr" => s.op.stdin) /\ s.wls = <<>>)
             /\ (Len(s.op.targets) = 2 => Len(s.wls) >= 2)
